@@ -309,6 +309,46 @@ let eval_line (fields : string list) : (string * string) list =
          | None -> "err" in
        if e <> res then fail "oracle.C09" ("spec-side split says: " ^ e)
      end
+   | ["builderl"; regs; hex; mask; res] ->
+     (* the decoder driven leniently: the closures of the items picked by [mask] fail and the caller goes on; every
+        call consumes one item, so each item that is decoded is still exactly its own slice, in order *)
+     let regs = parse_regs regs in
+     let bs = bytes_of_hex hex in
+     let mask = Int64.of_string mask in
+     let failing i = Int64.logand (Int64.shift_right_logical mask (i mod 64)) 1L = 1L in
+     let m = match res_of_outcome (M.builder_build regs bs) with
+       | ROk items ->
+         if List.length items < List.length regs then "panic"
+         else "ok " ^ String.concat "," (List.mapi (fun i s -> if failing i then "x" else hex_of_bytes s)
+                                           (List.filteri (fun i _ -> i < List.length regs) items))
+       | r -> class_of r in
+     bump ("builderl." ^ (if String.length res >= 2 then String.sub res 0 2 else res));
+     nontrivial ();
+     if m <> res then begin
+       fail "corr.builder" ("lenient decoding: model=" ^ m);
+       if String.length m >= 2 && String.sub m 0 2 = "ok" then
+         fail "oracle.C09" ("an item was not handed its own bytes after an earlier closure failed; expected " ^ m)
+     end;
+     if res = "panic" && m <> "panic" then fail "oracle.C05" "lenient decoding panicked"
+   | ["encoder2"; prefix; nf; items1; items2; out] ->
+     (* one encoder, two rounds of fields each closed by [finalize] *)
+     let pre = bytes_of_hex prefix in
+     let parse items = if items = "-" then [] else
+         List.map (fun it -> match split_on ':' it with
+             | [k; h] -> (k = "f", bytes_of_hex h)
+             | _ -> failwith "bad encoder item") (split_on ',' items) in
+     let r1 = parse items1 and r2 = parse items2 in
+     let run b its = M.enc_run b (n_of_dec nf) (List.map (fun (f, x) -> (f, (fun buf -> buf @ x))) its) in
+     let m = run (run pre r1) r2 in
+     let out = bytes_of_hex out in
+     nontrivial ();
+     if m <> out then fail "corr.encoder" ("two rounds: model=" ^ hex_of_bytes m);
+     (match Tiling.assemble pre (int_of_string nf) r1 with
+      | Some mid ->
+        (match Tiling.assemble mid (int_of_string nf) r2 with
+         | Some expect -> if expect <> out then fail "oracle.C10" ("second round depends on the first: expected " ^ hex_of_bytes expect)
+         | None -> ())
+      | None -> ())
    | ["encoder"; prefix; nf; items; out] ->
      let pre = bytes_of_hex prefix in
      let items = if items = "-" then [] else
